@@ -570,17 +570,27 @@ def _weather_clause(ctx, env, rnd, search):
         ymid = y0 + 1 + rnd.randrange(2)
         variants = [("plain", ser, (0, 1, 2), None),
                     ("heights", ser, (0, 1), None),          # third header line: station height, wind height 10 m
+                    ("preco", ser, (0, 1, 2), None),         # monthly precipitation correction (shipped preco.txt)
+                    ("precogen", ser, (0, 1, 2), None),      # ... with generated factors that change every month
                     ("sentinel-interior", mod(D(ymid, rnd.randrange(2, 12), rnd.randrange(2, 28)), tavg="-99.9"), (0, 1), None),
                     ("calm-31dec", mod(D(ymid, 12, 31), wind="0.1"), (0, 1, 2), None),
                     ("sentinel-31dec", mod(D(ymid, 12, 31), tavg="-99.9"), (0, 1), "weather-layout0-sentinel-at-year-edge"),
                     ("sentinel-1jan", mod(D(ymid + 1, 1, 1), tavg="-99.9"), (0, 1), "weather-layout0-sentinel-at-year-edge")]
         for vname, s, layouts, special in variants:
             idx = {}
+            fac = ["%.2f" % (0.8 + 0.05 * ((m_ * 7 + k) % 12)) for m_ in range(12)]
             hts = (str(rnd.choice([5, 55, 120])), rnd.choice(["10", "10", "3.5"])) if vname == "heights" else None
             for lay in layouts:
                 folder = "w%d_%s_%d" % (k, vname.replace("-", ""), lay)
                 keys = F.render_weather(env.ex, folder, lay, "X", s, heights=hts)
                 keys["WeatherFolder"] = '"%s"' % folder
+                if vname.startswith("preco"):
+                    keys["CorrectionPrecipitation"] = 1
+                    with open(os.path.join(env.ex, "weather", folder, "preco.txt"), "w") as pf_:
+                        if vname == "preco":
+                            pf_.write(open(os.path.join(env.ex, "weather", "MUN", "preco.txt")).read())
+                        else:
+                            pf_.write("Mo Corr\n" + "\n".join("%2d %s" % (m_ + 1, fac[m_]) for m_ in range(12)))
                 nm = "wx%d_%s_%d" % (k, vname.replace("-", ""), lay)
                 F.write_project(env, nm, P, cfg=keys)
                 lines.append(F.line_for(nm, P, fcode="X"))
